@@ -1,4 +1,5 @@
 import PyndlDriver.Json
+import PyndlDriver.Plugins
 
 open Lean
 
@@ -160,6 +161,63 @@ def opPartition (j : Json) : M Json := do
   pure (Json.mkObj [("slice_list", Json.arr ((sliceList xs c).map jNats).toArray),
                     ("omp_parts", Json.arr ((ompParts xs c).map jNats).toArray)])
 
+def readErrName : ReadErr → String
+  | .badMagic => "badMagic" | .badVersion => "badVersion" | .truncated => "truncated"
+
+/-- op encode: `write_events(events, file, start, stop, remove_duplicates)` -/
+def opEncode (j : Json) : M Json := do
+  let es ← getIdEvents j "events"
+  let start ← getNat j "start"
+  let stop ← getNat j "stop"
+  let p ← getPolicy j "policy"
+  let (bytes, res) := writeEvents Generated.pyMagic Generated.pyVersion p es start stop
+  let kind : Json := match res with
+    | .ok n => Json.mkObj [("kind", "ok"), ("n", jNat n)]
+    | .stopped n => Json.mkObj [("kind", "stopped"), ("n", jNat n)]
+    | .empty => Json.mkObj [("kind", "empty"), ("n", jNat 0)]
+    | .dupError i => Json.mkObj [("kind", "dup_error"), ("n", jNat i)]
+  pure (kind.setObjVal! "bytes" (match bytes with | some b => Json.str (toHex b) | none => Json.null))
+
+/-- op decode: both readers on a byte string -/
+def opDecode (j : Json) : M Json := do
+  let bs := fromHex (← getStr j "bytes")
+  let py : Json := match decodeChunkPy Generated.pyMagic Generated.pyVersion bs with
+    | .ok es => Json.mkObj [("events", Json.arr (es.map jEvent).toArray)]
+    | .error e => Json.mkObj [("err", Json.str (readErrName e))]
+  let ke : Json := match decodeChunkKernel Generated.kernelMagic Generated.kernelVersion bs with
+    | .ok (es, hist) => Json.mkObj [("events", Json.arr (es.map jEvent).toArray),
+        ("max_block", jNat (hist.foldl (fun m p => max m p.1) 0)),
+        ("cap_ok", Json.bool (hist.all (fun p => p.1 ≤ p.2)))]
+    | .error e => Json.mkObj [("err", Json.str (readErrName e))]
+  pure (Json.mkObj [("py", py), ("kernel", ke)])
+
+/-- op kernel_b2b: an entry point of the binary-to-binary kernel on a list of
+    chunk byte strings (direct kernel call, no id maps) -/
+def opKernelB2B (j : Json) : M Json := do
+  let chunks := (← (← getArr j "chunks").toList.mapM asStr).map fromHex
+  let nCues ← getNat j "n_cues"
+  let nOut ← getNat j "n_out"
+  let rows ← asNatList (← j.getObjVal? "rows")
+  let alpha ← getTR j "alpha"
+  let b1 ← getTR j "beta1"
+  let b2 ← getTR j "beta2"
+  let lam ← getTR j "lambda"
+  let entry ← getStr j "entry"
+  let chunk := getNatD j "chunk" 10
+  let w0 : Array TR := match getOpt j "init" with
+    | some (.arr a) => a.map (fun v => match asTR v with | .ok t => t | .error _ => 0)
+    | _ => Array.replicate (nCues * nOut) 0
+  let learnFile : Array TR → List (Event Nat Nat) → Array TR := fun w es =>
+    if entry == "openmp" then
+      (ompParts rows chunk).foldl (fun w part => kernelFile alpha b1 b2 lam nCues part w es) w
+    else kernelFile alpha b1 b2 lam nCues rows w es
+  let (w, e) := learnChunks Generated.kernelMagic Generated.kernelVersion learnFile chunks w0
+  let cells := (List.range w.size).filterMap (fun k =>
+    let v := w.getD k 0
+    if v.v == 0 then none else some (Json.arr #[jNat k, Json.str v.toStr]))
+  pure (Json.mkObj [("cells", Json.arr cells.toArray), ("bits", jNat (maxBits w.toList)),
+    ("err", match e with | some _ => Json.str "Raised:IO" | none => Json.null)])
+
 def handle (j : Json) : M Json := do
   let op ← getStr j "op"
   match op with
@@ -169,6 +227,12 @@ def handle (j : Json) : M Json := do
   | "ndl" => opNdl j
   | "queue_trace" => opQueueTrace j
   | "partition" => opPartition j
-  | _ => .error s!"unknown op {op}"
+  | "encode" => opEncode j
+  | "decode" => opDecode j
+  | "kernel_b2b" => opKernelB2B j
+  | _ =>
+    match handlePlugin? op j with
+    | some r => r
+    | none => .error s!"unknown op {op}"
 
 end PyndlDriver
